@@ -41,6 +41,12 @@ def inv_poison(st):
     return z3.ForAll([_m], z3.Implies(st.heap.get("$broken", _m), st.heap.get("Module._elab_error", _m) != NULL))
 
 
+def inv_poison_only(st):
+    """and conversely: only a module whose own pass-specific rewrite raised carries an error (a failure below it, or
+    beside it, leaves a module untouched and free to be elaborated again once the design is repaired)"""
+    return z3.ForAll([_m], z3.Implies(st.heap.get("Module._elab_error", _m) != NULL, st.heap.get("$broken", _m)))
+
+
 def poison_kept(st0, st):
     e0, e1 = st0.heap.arr("Module._elab_error"), st.heap.arr("Module._elab_error")
     return z3.ForAll([_m], z3.Implies(e0[_m] != NULL, e1[_m] != NULL))
@@ -63,18 +69,20 @@ class ElabBase(Contract):
         st.heap.havoc_field("$broken")
 
     def pre(self, eng, st, a):
-        return inv_poison(st)
+        return z3.And(inv_poison(st), inv_poison_only(st))
 
     def common_posts(self):
         return [("pending-restored", lambda eng, st0, st, a, res: pending_same(st0, st)),
                 ("done-monotone", lambda eng, st0, st, a, res: done_grows(st0, st)),
                 ("stack-restored", lambda eng, st0, st, a, res: stack_same(st0, st, a.self.z)),
-                ("poison-kept", lambda eng, st0, st, a, res: z3.And(inv_poison(st), poison_kept(st0, st)))]
+                ("poison-kept", lambda eng, st0, st, a, res: z3.And(inv_poison(st), poison_kept(st0, st))),
+                ("poison-only-where-broken", lambda eng, st0, st, a, res: inv_poison_only(st))]
 
     def common_xposts(self):
         return [("pending-restored", lambda eng, st0, st, a, E: pending_same(st0, st)),
                 ("done-monotone", lambda eng, st0, st, a, E: done_grows(st0, st)),
-                ("poison-kept", lambda eng, st0, st, a, E: z3.And(inv_poison(st), poison_kept(st0, st)))]
+                ("poison-kept", lambda eng, st0, st, a, E: z3.And(inv_poison(st), poison_kept(st0, st))),
+                ("poison-only-where-broken", lambda eng, st0, st, a, E: inv_poison_only(st))]
     posts = property(lambda self: self.common_posts())
     xposts = property(lambda self: self.common_xposts())
 
@@ -109,8 +117,10 @@ class Virtual(ElabBase):
         if self.marks_broken:
             # the only place where inv_poison is (temporarily) broken: restored by elaborate_module_base's handler
             return base + [("poison-kept", lambda eng, st0, st, a, E: poison_kept(st0, st)),
-                           ("others-not-broken", self._others), ("ghost-mark", self._mark)]
-        return base + [("poison-kept", lambda eng, st0, st, a, E: z3.And(inv_poison(st), poison_kept(st0, st)))]
+                           ("others-not-broken", self._others), ("ghost-mark", self._mark),
+                           ("poison-only-where-broken", lambda eng, st0, st, a, E: inv_poison_only(st))]
+        return base + [("poison-kept", lambda eng, st0, st, a, E: z3.And(inv_poison(st), poison_kept(st0, st))),
+                       ("poison-only-where-broken", lambda eng, st0, st, a, E: inv_poison_only(st))]
 
     def _others(self, eng, st0, st, a, E):
         me = getattr(a, self.argname).z
@@ -193,7 +203,7 @@ class Tops(ElabBase):
 def _loop_inv(eng, st_entry, st_now):
     me = st_now.locals["self"]
     return z3.And(pending_same(st_entry, st_now), done_grows(st_entry, st_now), stack_same(st_entry, st_now, me.z),
-                  inv_poison(st_now), poison_kept(st_entry, st_now))
+                  inv_poison(st_now), inv_poison_only(st_now), poison_kept(st_entry, st_now))
 
 
 _K = "hdl21.elab.passes.base:ElabPass."
